@@ -64,7 +64,16 @@ type c8Op struct {
 	dt     int64  // M: virtual milliseconds since the previous message
 	tag    int    // M: payload tag
 	id     int    // C, X: registration
-	how    byte   // X: 'c' context cancelled after the request was written, 'a' same after the request was ACKed (empty ACK),
+	// W (message from the peer in a block-wise history, harness/c08bw.go):
+	fref  int    // >= 0: the token is the one drawn for the fref-th block-wise transfer opened in this run; -1: tok
+	etag  []byte // ETag option (nil = none)
+	hasB2 bool   // Block2 option: szx, num, more
+	szx   int
+	num   int
+	more  bool
+	plen  int  // payload length (0 = none, otherwise >= 2: tag + filler)
+	typ   byte // 'n' NON, 'c' CON, 'a' ACK of the last GET written under this token (NON when there is none)
+	how   byte // X: 'c' context cancelled after the request was written, 'a' same after the request was ACKed (empty ACK),
 	//               'e' context already cancelled when Cancel is called, 'w' the write of the request fails
 }
 
@@ -72,10 +81,14 @@ type c8Script struct {
 	wire bool
 	bw   bool
 	tcp  bool // wire over a tcp/client.Conn on a net.Pipe instead of the datagram connection
+	bn   bool // block-wise history ("bhist", harness/c08bw.go): wire + bw, messages are W ops
 	ops  []c8Op
 }
 
 func (s c8Script) String() string {
+	if s.bn {
+		return c8BString(s)
+	}
 	var sb strings.Builder
 	m := "d"
 	if s.wire {
@@ -162,7 +175,7 @@ func (s c8Script) gapsOK() bool {
 	var ts []int64
 	t := int64(0)
 	for _, o := range s.ops {
-		if o.kind == 'M' {
+		if o.kind == 'M' || o.kind == 'W' {
 			t += o.dt
 			ts = append(ts, t)
 		}
@@ -311,9 +324,25 @@ type c8Run struct {
 	doCalls    int
 	bad        string // set when the implementation hung / panicked
 	features   map[string]bool
+	// block-wise histories
+	errs    int             // calls of the connection's / block-wise layer's error callback
+	fresh   [][]byte        // tokens drawn by the block-wise layer, in the order they showed on the wire
+	lastGet map[string]int32 // token -> message ID of the last confirmable GET written under it
 }
 
 func c8Bytes(b []byte) string { return coqBytes(b) }
+
+// tokStr: a token as Coq text; a token drawn by the block-wise layer (random) is replaced by its canonical name
+func (r *c8Run) tokStr(t []byte) string {
+	r.mu.Lock()
+	defer r.mu.Unlock()
+	for k, f := range r.fresh {
+		if bytes.Equal(f, t) {
+			return c8Bytes(c8Canon(k))
+		}
+	}
+	return c8Bytes(t)
+}
 
 func (r *c8Run) addLog(s string) {
 	r.mu.Lock()
@@ -343,12 +372,12 @@ func (r *c8Run) callback(id int) func(*pool.Message) {
 		if v, err := m.Observe(); err == nil {
 			sq = fmt.Sprintf("(Some %d)", v)
 		}
-		r.addLog(fmt.Sprintf("Cb %d %s %s %d", id, c8Bytes(m.Token()), sq, c8Tag(m)))
+		r.addLog(fmt.Sprintf("Cb %d %s %s %d", id, r.tokStr(m.Token()), sq, c8Tag(m)))
 	}
 }
 
 func (r *c8Run) logNext(m *pool.Message) {
-	r.addLog(fmt.Sprintf("Nx %s %d", c8Bytes(m.Token()), c8Tag(m)))
+	r.addLog(fmt.Sprintf("Nx %s %d", r.tokStr(m.Token()), c8Tag(m)))
 }
 
 func (r *c8Run) setup() {
@@ -380,7 +409,11 @@ func (r *c8Run) setup() {
 	cfg := client.DefaultConfig
 	cfg.Handler = func(_ *responsewriter.ResponseWriter[*client.Conn], m *pool.Message) { r.logNext(m) }
 	cfg.GetToken = r.getToken
-	cfg.Errors = func(error) {}
+	cfg.Errors = func(error) {
+		r.mu.Lock()
+		r.errs++
+		r.mu.Unlock()
+	}
 	cfg.LimitClientParallelRequests = 0
 	cfg.LimitClientEndpointParallelRequests = 0
 	cfg.TransmissionNStart = 1000
@@ -392,7 +425,7 @@ func (r *c8Run) setup() {
 	var opts []client.Option
 	if r.sc.bw {
 		opts = append(opts, client.WithBlockWise(func(cc *client.Conn) *blockwise.BlockWise[*client.Conn] {
-			return blockwise.New(cc, 3*time.Second, cfg.Errors, func(token message.Token) (*pool.Message, bool) {
+			return blockwise.New(cc, time.Hour, cfg.Errors, func(token message.Token) (*pool.Message, bool) {
 				return cc.GetObservationRequest(token)
 			})
 		}))
@@ -1595,7 +1628,7 @@ func c8GenScratch() []c8Op {
 func runC08(a runArgs) error {
 	e := NewEmitter("C08", "Observe.Run")
 	e.ShardSize = 120
-	e.Preamble = "From GoCoap Require Import Observe.Model."
+	e.Preamble = "From GoCoap Require Import Observe.Model Observe.BwModel."
 	e.Rule = "Tab = 64 values of ValidSequenceNumber(old, new0..new0+63, last, now) as a bit table (distinct = distinct table; non-trivial = inside the 24-bit domain of RFC 7641). Hist = one history of register/message/cancel events run on the real Handler/Observation (distinct = distinct script; non-trivial = at least one message reached a callback and at least one did not)."
 	rng := NewRng(a.seed)
 	thorough := a.tier == "thorough"
@@ -1604,7 +1637,7 @@ func runC08(a runArgs) error {
 		if !sc.gapsOK() {
 			// move the clock of every message a little instead of dropping the script
 			for i := range sc.ops {
-				if sc.ops[i].kind == 'M' && sc.ops[i].dt > 0 {
+				if (sc.ops[i].kind == 'M' || sc.ops[i].kind == 'W') && sc.ops[i].dt > 0 {
 					sc.ops[i].dt += 7
 				}
 			}
@@ -1614,7 +1647,11 @@ func runC08(a runArgs) error {
 			}
 		}
 		for try := 0; try < 6; try++ {
-			text, feats, nontriv, el, bad := runC8Script(sc)
+			run := runC8Script
+			if sc.bn {
+				run = runC8BScript
+			}
+			text, feats, nontriv, el, bad := run(sc)
 			if el > 200*time.Millisecond && bad == "" && try < 5 {
 				continue
 			}
@@ -1643,6 +1680,12 @@ func runC08(a runArgs) error {
 			}
 		case "hist":
 			sc, err := parseC8Script(a.only)
+			if err != nil {
+				return err
+			}
+			addScript(sc, "replay")
+		case "bhist":
+			sc, err := parseC8BScript(a.only)
 			if err != nil {
 				return err
 			}
@@ -1702,6 +1745,17 @@ func runC08(a runArgs) error {
 	}
 	for i := 0; i < nU; i++ {
 		addScript(c8Script{wire: false, ops: c8GenUint32(rng.Fork())}, "uint32-direct")
+	}
+	// block-wise notifications (harness/c08bw.go)
+	for v := 0; v < 12; v++ {
+		addScript(c8Script{wire: true, bw: true, bn: true, ops: c8GenBwFixed(rng.Fork(), v)}, "blockwise-notification-scenarios")
+	}
+	nB := 150
+	if thorough {
+		nB = 2500
+	}
+	for i := 0; i < nB; i++ {
+		addScript(c8Script{wire: true, bw: true, bn: true, ops: c8GenBwRandom(rng.Fork())}, "blockwise-notifications")
 	}
 	e.Extra["discarded_scripts"] = discarded
 	return e.Flush(a.out)
